@@ -77,6 +77,7 @@ def stats(sessions, acc):
         acc["with_nested_compile"] += nest
         acc["two_modules_used"] += len(set(s["place"])) > 1
         acc["user_bound"] += any(s["bind"][m] for m in s["bind"])
+        acc["bound_to_none_or_zero"] += any(b.endswith(("=none", "=zero")) for m in s["bind"] for b in s["bind"][m])
         for st in s["steps"]:
             acc["outcomes"][st["outcome"]] = acc["outcomes"].get(st["outcome"], 0) + 1
             acc["obs"] += len(st["obs"])
@@ -88,7 +89,7 @@ def stats(sessions, acc):
 
 def run(ctx):
     ctx.level = "model_checking"
-    acc = {"sessions": 0, "steps": 0, "obs": 0, "with_nested_compile": 0, "two_modules_used": 0, "user_bound": 0,
+    acc = {"sessions": 0, "steps": 0, "obs": 0, "with_nested_compile": 0, "two_modules_used": 0, "user_bound": 0, "bound_to_none_or_zero": 0,
            "outcomes": {}, "steps_with_two_modules_mocked": 0, "max_traces_in_step": 0}
     allbad, leaks, failed = [], 0, 0
     samples = []
@@ -132,7 +133,7 @@ def run(ctx):
     ctx.log(f"simulation: {len(sessions)} emitted, {len(uniq)} distinct, {len(sim)} replayed")
 
     need = ("ok", "py", "guppy", "bad_return")
-    if any(acc["outcomes"].get(k, 0) == 0 for k in need) or not (acc["with_nested_compile"] and acc["user_bound"]
+    if any(acc["outcomes"].get(k, 0) == 0 for k in need) or not (acc["with_nested_compile"] and acc["user_bound"] and acc["bound_to_none_or_zero"]
                                                                   and acc["steps_with_two_modules_mocked"]):
         raise lib.Machinery(f"vacuous enumeration: {acc}")
 
@@ -156,9 +157,9 @@ def run(ctx):
         "samples": samples,
         "exhaustive": True,
         "bounds": (f"exhaustive: {nexh} sessions of {cfg} (2 functions, 2 modules, "
-                   + ("2 binding sets/module, 4 fault kinds, 1 compile" if ctx.quick else
-                      "3 binding sets/module, 6 fault kinds, 2 compiles")
-                   + f"); plus {len(sim)} random sessions with 3 functions, all 64 bindings, 3 compiles (seed {ctx.seed + 1})"),
+                   + ("3 binding sets/module (values: own object, None, 0), 4 fault kinds, 1 compile" if ctx.quick else
+                      "4 binding sets/module (values: own object, None, 0), 6 fault kinds, 2 compiles")
+                   + f"); plus {len(sim)} random sessions with 3 functions, all 4^3 bindings per module (absent / own object / None / 0), 3 compiles (seed {ctx.seed + 1})"),
         "session_stats": acc,
         "mismatching_sessions": len(allbad),
         "side_observation_tracing_state": {
